@@ -357,6 +357,15 @@ func checkC13(c *Ctx) {
 					continue
 				}
 				dies, w := reach(f, in, isExit, isRecv, nil)
+				if !dies {
+					// ... and from the receive itself (a return on the way to the reload - a failed configuration load -
+					// ends the handler just the same)
+					eachInstr(f, func(x ssa.Instruction) {
+						if isRecv(x) && !dies {
+							dies, w = reach(f, x, isExit, isRecv, nil)
+						}
+					})
+				}
 				if dies {
 					r.Bad("C13.8", fnName(f)+": the signal handler ends after a reload", in.Pos(), fnName(f),
 						"from the reload a return (or exit) of the signal-handling goroutine is reachable before the next receive from the signal channel: after that outcome no later SIGHUP is served, so later reloads never start and the registrar answers from the stale subnet set for the rest of its life", r.blockPath(f, w)...)
